@@ -107,7 +107,8 @@ class Observer:
 
     MODELLED = {"insert_pass", "reorder_stmts", "cut_loop", "join_loops", "specialize",
                 "eliminate_dead_code", "remove_loop", "add_loop", "fission", "fuse",
-                "shift_loop", "unroll_loop", "divide_loop", "reorder_loops", "mult_loops"}
+                "shift_loop", "unroll_loop", "divide_loop", "reorder_loops", "mult_loops", "lift_scope",
+                "lift_alloc", "sink_alloc", "delete_buffer", "delete_pass", "expand_dim", "bind_expr"}
 
     def rwcheck(self, p, att, pj, pj2, hist):
         """correspondence A: the real output is the model rewrite (lean/ExoModel/Rewrite.lean)"""
@@ -119,6 +120,10 @@ class Observer:
             flag = a["where"] == "before"
         elif op == "add_loop":
             flag = bool(a["guard"])
+        elif op == "lift_alloc":
+            k = a.get("n", 1)
+        elif op == "bind_expr":
+            path = [st for st in path if st[0] in ("body", "orelse")]
         elif op == "fission":
             if a.get("n_lifts", 1) != 1:
                 return
